@@ -90,6 +90,17 @@ def _plan(draw, big):
         for nm in names:
             kind = draw(st.sampled_from(["f", "i", "b", "s", "s", "u", "d", "t", "td", "o", "ob", "y", "f32", "i8", "u8", "tm", "ts"]))
             cols.append({"name": nm, "kind": kind, "vals": draw(_col_vals(kind, n, ctrl))})
+        if n and draw(st.integers(0, 11)) == 0:
+            # a RELATION between texts: name, dtype label and every cell of a column have the same number of code
+            # points while their display widths differ (East Asian wide characters)
+            crafted = [
+                {"name": "日本語の列", "kind": "i", "vals": [draw(st.integers(10000, 99999)) for _ in range(n)]},      # "int64"
+                {"name": "完了済み", "kind": "b", "vals": [True] * n},                                                 # "bool" / "True"
+                {"name": "name_6", "kind": "s", "vals": [draw(st.sampled_from(["日本語abc", "abcdef", "ＡＢＣdef"])) for _ in range(n)]},  # "string"
+                {"name": "値のならび", "kind": "i", "vals": [draw(st.integers(-9999, -1000)) for _ in range(n)]},
+            ]
+            pick = draw(st.lists(st.integers(0, 3), min_size=1, max_size=3, unique=True))
+            cols = [crafted[j] for j in pick] + cols[:draw(st.integers(0, 2))]
         plan["frame"] = {"n": n, "cols": cols}
         if cls == "geojson":
             plan["geometry"] = [draw(st.sampled_from([None, "Point", "Polygon", "MultiLineString"])) for _ in range(n)]
